@@ -135,7 +135,7 @@ struct TwinEnv : Family {
 				}
 			} else if (sc == "map") {
 				Line m = mkline("world", "map");
-				m.set("seed", hex64(r.next())).set("lgw", r.below(7)).set("h", r.below(6)).set("nsrc", r.below(5)).set("nmap", r.below(5)).set("nter", r.below(2)).set("ngroups", r.below(4)).set("saved", r.below(3)).set("tag", 0x1011).set("trailing", 0);
+				m.set("seed", hex64(r.next())).set("lgw", r.below(7)).set("h", r.below(6)).set("nsrc", r.chance(1, 12) ? r.range(500, 540) : r.below(5)).set("nmap", r.below(5)).set("nter", r.below(2)).set("ngroups", r.below(4)).set("saved", r.below(3)).set("tag", 0x1011).set("trailing", 0);
 				p.world.push_back(m);
 			} else if (sc == "bmp") {
 				static const int BITS[] = {1, 4, 8};
